@@ -1,8 +1,242 @@
 package c09
 
-import "verifharness/internal/core"
+import (
+	"fmt"
+	"math"
+	"strings"
 
-func runFormulas(c *core.Ctx) {
-	// filled in by refproj.go
-	runFormulasImpl(c)
+	"verifharness/internal/core"
+	"verifharness/internal/crsgen"
+	"verifharness/internal/refproj"
+)
+
+const d2r = math.Pi / 180
+
+type numDatum struct {
+	ell    refproj.Ell
+	hm     refproj.Helmert
+	clause string // " +a=… +rf=… [+towgs84=…]" or " +datum=WGS84"
+	none   bool
+}
+
+func genNumDatum(r *crsgen.R, kind string, noSphere bool) numDatum {
+	var d numDatum
+	F := crsgen.F
+	if kind == "wgs84" {
+		d.ell = refproj.Ell{A: 6378137, F: 1 / 298.257223563}
+		d.clause = " +datum=WGS84"
+		return d
+	}
+	a := r.Range(6.30e6, 6.40e6)
+	// flattening in the range of real ellipsoids: the port's (Snyder's) series are
+	// truncated at e^6 and drift past 5 mm for flattenings far from the Earth's
+	// (5.9 mm observed for the equidistant conic at 1/f = 256)
+	rfLo, rfHi := 290.0, 305.0
+	shape := r.Intn(4)
+	if noSphere && shape == 0 {
+		shape = 2
+	}
+	switch shape {
+	case 0: // sphere
+		d.ell = refproj.Ell{A: a, F: 0}
+		d.clause = " +a=" + F(a) + " +b=" + F(a)
+	case 1: // a + b
+		rf := r.Range(rfLo, rfHi)
+		b := a * (1 - 1/rf)
+		d.ell = refproj.Ell{A: a, F: (a - b) / a}
+		d.clause = " +a=" + F(a) + " +b=" + F(b)
+	default:
+		rf := r.Range(rfLo, rfHi)
+		d.ell = refproj.Ell{A: a, F: 1 / rf}
+		d.clause = " +a=" + F(a) + " +rf=" + F(rf)
+	}
+	switch kind {
+	case "none":
+		d.none = true
+	case "towgs84_3":
+		d.hm = refproj.Helmert{Dx: r.Range(-800, 800), Dy: r.Range(-800, 800), Dz: r.Range(-800, 800), N: 3}
+		d.clause += " +towgs84=" + F(d.hm.Dx) + "," + F(d.hm.Dy) + "," + F(d.hm.Dz)
+	case "towgs84_7":
+		d.hm = refproj.Helmert{Dx: r.Range(-800, 800), Dy: r.Range(-800, 800), Dz: r.Range(-800, 800), Rx: r.Range(-8, 8), Ry: r.Range(-8, 8), Rz: r.Range(-8, 8), S: r.Range(-25, 25), N: 7}
+		d.clause += " +towgs84=" + strings.Join([]string{F(d.hm.Dx), F(d.hm.Dy), F(d.hm.Dz), F(d.hm.Rx), F(d.hm.Ry), F(d.hm.Rz), F(d.hm.S)}, ",")
+	}
+	return d
+}
+
+func runFormulasImpl(c *core.Ctx) {
+	r := c.R
+	F := crsgen.F
+	dstKind := []string{"none", "towgs84_3", "towgs84_7", "wgs84"}[r.Intn(4)]
+	// projection
+	form := []string{"merc_ts", "merc_k", "lcc", "lcc_1sp", "aea", "eqdc", "tmerc", "utm"}[r.Intn(8)]
+	// the Krueger series is the ellipsoidal reference; on a sphere proj4js and the port
+	// omit the false origin (an inherited quirk on which oracle A is authoritative), so
+	// spherical transverse Mercator is left to the proj4js comparison
+	noSphere := form == "tmerc" || form == "utm"
+	dd := genNumDatum(r, dstKind, noSphere)
+	p := refproj.Params{K0: 1}
+	lon0 := r.Range(-170, 170)
+	p.Lon0 = lon0 * d2r
+	p.X0, p.Y0 = r.Range(-3e6, 3e6), r.Range(-3e6, 3e6)
+	fo := " +x_0=" + F(p.X0) + " +y_0=" + F(p.Y0)
+	var def string
+	dlon, latMin, latMax := 170.0, -85.0, 85.0
+	var fwd func(refproj.Ell, refproj.Params, float64, float64) (float64, float64)
+	switch form {
+	case "merc_ts":
+		ts := r.Range(-60, 60)
+		p.LatTS, p.HasLatTS = ts*d2r, true
+		def = "+proj=merc +lon_0=" + F(lon0) + " +lat_ts=" + F(ts) + fo
+		fwd = refproj.Mercator
+	case "merc_k":
+		p.K0 = r.Range(0.5, 1.5)
+		def = "+proj=merc +lon_0=" + F(lon0) + " +k_0=" + F(p.K0) + fo
+		fwd = refproj.Mercator
+	case "lcc", "lcc_1sp", "aea", "eqdc":
+		sgn := 1.0
+		if r.Bool() {
+			sgn = -1
+		}
+		l1, l2, l0 := r.Range(8, 75), r.Range(8, 75), r.Range(0, 80)
+		if math.Abs(l1-l2) < 0.5 {
+			l2 = l1 + 2
+		}
+		name := form
+		if form == "lcc_1sp" {
+			l2, name = l1, "lcc"
+		}
+		p.Lat1, p.Lat2, p.Lat0 = sgn*l1*d2r, sgn*l2*d2r, sgn*l0*d2r
+		def = "+proj=" + name + " +lat_1=" + F(sgn*l1) + " +lat_2=" + F(sgn*l2) + " +lat_0=" + F(sgn*l0) + " +lon_0=" + F(lon0)
+		if name == "lcc" && r.Bool() {
+			p.K0 = r.Range(0.9, 1.1)
+			def += " +k_0=" + F(p.K0)
+		}
+		def += fo
+		if sgn > 0 {
+			latMin, latMax = 5, 85
+		} else {
+			latMin, latMax = -85, -5
+		}
+		if name == "eqdc" {
+			// The port's (and proj4js's) meridian-arc series stops at e^6; far from the standard
+			// parallels the error of the cone constant is magnified by the cone radius and passes
+			// 5 mm (7.7 mm observed 40 deg away). Oracle B therefore judges the equidistant conic
+			// within 20 deg of the band of its standard parallels and 60 deg of the central meridian;
+			// beyond that only the proj4js comparison applies.
+			lo, hi := math.Min(l1, l2)-20, math.Max(l1, l2)+20
+			latMin, latMax = sgn*math.Max(lo, 5), sgn*math.Min(hi, 85)
+			if latMin > latMax {
+				latMin, latMax = latMax, latMin
+			}
+			dlon = 60
+		}
+		fwd = map[string]func(refproj.Ell, refproj.Params, float64, float64) (float64, float64){"lcc": refproj.LCC, "aea": refproj.Albers, "eqdc": refproj.EquidistantConic}[name]
+	case "tmerc":
+		l0 := r.Range(-80, 80)
+		p.Lat0, p.K0 = l0*d2r, r.Range(0.9, 1.1)
+		def = "+proj=tmerc +lat_0=" + F(l0) + " +lon_0=" + F(lon0) + " +k_0=" + F(p.K0) + fo
+		dlon, latMin, latMax = 3.5, -84, 84
+		fwd = refproj.TransverseMercator
+	case "utm":
+		zone := r.IntRange(1, 60)
+		lon0 = float64(6*zone - 183)
+		p = refproj.Params{Lon0: lon0 * d2r, K0: 0.9996, X0: 500000}
+		def = fmt.Sprintf("+proj=utm +zone=%d", zone)
+		dlon, latMin, latMax = 3.5, 0, 84
+		if r.Bool() {
+			def += " +south"
+			p.Y0 = 10000000
+			latMin, latMax = -84, 0
+		}
+		fwd = refproj.TransverseMercator
+	}
+	toMeter := 1.0
+	units := ""
+	switch r.Intn(4) {
+	case 0:
+		units, toMeter = " +units=ft", 0.3048
+	case 1:
+		units, toMeter = " +units=us-ft", 1200.0/3937.0
+	case 2:
+		toMeter = r.Range(0.2, 3)
+		units = " +to_meter=" + F(toMeter)
+	}
+	pmDst := 0.0
+	pm := ""
+	if form != "utm" && r.Chance(0.2) {
+		pmDst = r.Range(-30, 30)
+		pm = " +pm=" + F(pmDst)
+	}
+	dst := def + dd.clause + units + pm + " +no_defs"
+	// source geographic system
+	var sd numDatum
+	pmSrc := 0.0
+	if dd.none {
+		sd = dd
+		pmSrc = pmDst
+	} else {
+		if k := []string{"towgs84_3", "towgs84_7", "wgs84", "same"}[r.Intn(4)]; k == "same" {
+			sd = dd
+		} else {
+			sd = genNumDatum(r, k, false)
+		}
+		if r.Chance(0.2) {
+			pmSrc = r.Range(-30, 30)
+		}
+	}
+	src := "+proj=longlat" + sd.clause
+	if pmSrc != 0 {
+		src += " +pm=" + F(pmSrc)
+	}
+	src += " +no_defs"
+	label := form + ":" + dstKind
+	var pts [][2]float64
+	var want []*[2]float64
+	for k := 0; k < 4; k++ {
+		// position relative to the destination's meridian, then expressed in the source's
+		lonD := lon0 + r.Range(-dlon, dlon)
+		lat := r.Range(latMin, latMax)
+		lonG := lonD + pmDst
+		lonS := lonG - pmSrc
+		if math.Abs(lonD) > 179.5 || math.Abs(lonG) > 179.5 || math.Abs(lonS) > 179.5 {
+			continue
+		}
+		// reference: one geocentric chain, then the closed-form projection
+		lo, la := lonG*d2r, lat*d2r
+		if !dd.none {
+			// one geocentric chain: to WGS84 with the source parameters, from WGS84 with the
+			// destination's (documented first-order inverse) — also when both sides name the
+			// same 7-parameter datum, where that chain is not exactly the identity
+			lo, la = refproj.Shift(sd.ell, sd.hm, dd.ell, dd.hm, lo, la)
+		}
+		x, y := fwd(dd.ell, p, lo-pmDst*d2r, la)
+		pts = append(pts, [2]float64{lonS, lat})
+		want = append(want, &[2]float64{x / toMeter, y / toMeter})
+	}
+	if len(pts) == 0 {
+		return
+	}
+	got, errs := goTransform(src, dst, pts)
+	c.Count("formulas.scenarios." + label)
+	h := core.NewHasher().Str(src).Str(dst)
+	c.Nontrivial(h.Sum())
+	for i := range pts {
+		c.Eval()
+		c.Count("formulas.points")
+		detail := map[string]interface{}{"src": src, "dst": dst, "point": pts[i], "reference": *want[i], "formula": form}
+		if got[i] == nil {
+			detail["go_error"] = errs[i]
+			c.Violate("formula-mismatch:error:"+label, fmt.Sprintf("%s: Go port fails (%s) where the reference formula gives %v", label, core.Trunc(errs[i], 100), *want[i]), detail)
+			continue
+		}
+		detail["go"] = *got[i]
+		dx, dy := math.Abs(got[i][0]-want[i][0])*toMeter, math.Abs(got[i][1]-want[i][1])*toMeter
+		c.Max("max_diff_m.formulas."+strings.Split(form, "_")[0], math.Max(dx, dy))
+		if !(dx <= 0.005 && dy <= 0.005) {
+			c.Violate("formula-mismatch:"+label, fmt.Sprintf("%s: Go (%v, %v) vs reference formula (%v, %v): off by (%.3g, %.3g) m, tolerance 5 mm", label, got[i][0], got[i][1], want[i][0], want[i][1], dx, dy), detail)
+		}
+	}
+	if c.WantSample() && !dd.none {
+		c.Sample(map[string]interface{}{"src": src, "dst": dst, "points": pts, "reference_formula": form})
+	}
 }
